@@ -68,6 +68,24 @@ func c14Shape(r *core.Rng, size float64, kind string) *canvas.Path {
 		return p
 	case "poly":
 		return contoursPath([][]Pt{starPoly(r, 0, 0, size*0.25, size*0.5, r.IntRange(3, 9), r.Bool())})
+	case "dense":
+		// a closed polyline sampled much finer than the image: 600-3000 vertices on a wavy ring, so that
+		// consecutive vertices are hundredths of a pixel apart
+		n := r.IntRange(600, 3000)
+		lobes := float64(r.IntRange(0, 5))
+		amp := r.Range(0, 0.25)
+		pts := make([]Pt, n)
+		for i := range pts {
+			a := 2 * math.Pi * float64(i) / float64(n)
+			rad := size * 0.45 * (1 - amp + amp*math.Cos(lobes*a))
+			pts[i] = Pt{X: rad * math.Cos(a), Y: rad * math.Sin(a)}
+		}
+		if r.Bool() {
+			for i, j := 0, n-1; i < j; i, j = i+1, j-1 {
+				pts[i], pts[j] = pts[j], pts[i]
+			}
+		}
+		return contoursPath([][]Pt{pts})
 	}
 	return simpleClosedShape(r, 0, 0, size*0.45, r.Bool())
 }
@@ -151,6 +169,9 @@ func genC14Once(kind string, r *core.Rng) *c14Case {
 			sk := core.PickS(r, []string{"curved", "poly", "selfx", "nested", "open"})
 			if kind == "rule" {
 				sk = core.PickS(r, []string{"selfx", "nested"})
+			}
+			if kind == "dense" {
+				sk = "dense"
 			}
 			d := c14Draw{Data: dataCopy(c14Shape(r, size, sk)), X: c.W * r.Range(0.3, 0.7), Y: c.H * r.Range(0.3, 0.7), Rule: r.Intn(2), Z: core.PickI(r, []int{0, 0, 0, 1, -1}), Shape: sk, Size: size}
 			col := func() []int {
@@ -639,6 +660,7 @@ func init() {
 			{Name: "view", Quick: 300, Thorough: 25000, Gen: genC14("view")},
 			{Name: "rule", Quick: 300, Thorough: 15000, Gen: genC14("rule")},
 			{Name: "lowres", Quick: 300, Thorough: 8000, Gen: genC14("lowres")},
+			{Name: "dense", Quick: 60, Thorough: 1500, Gen: genC14("dense"), Note: "closed polylines of 600-3000 vertices, hundredths of a pixel apart"},
 			{Name: "border", Quick: 300, Thorough: 6000, Gen: genC14("border"), WitnessOnly: true, Note: "shapes crossing the top or the left border of the image: geometry within one pixel outside those borders is accumulated into row 0 / column 0 (integer truncation in the scanx dependency), about 1 case in 100"},
 		},
 		NewCase:  func() any { return &c14Case{} },
